@@ -20,6 +20,7 @@ type Scenario struct {
 	Seq      bool     `json:"seq"`      // sequential enumeration (engine B): the body enumerates, bound 0
 	Only     string   `json:"only"`     // "" = both tiers, else "quick" or "thorough"
 	PoolChoice bool   `json:"pool_choice"`
+	MaxSteps   int    `json:"max_steps"` // per-execution point cap (0 = default)
 	Body     func(h *H) `json:"-"`
 	SeqRun   func(r *SeqReport) `json:"-"`
 }
@@ -56,6 +57,9 @@ func (s *Scenario) Instance(keep func(h *H)) *vrt.Instance {
 	in := &vrt.Instance{}
 	in.Setup = func(sc *vrt.Sched) {
 		sc.PoolChoice = s.PoolChoice
+		if s.MaxSteps > 0 {
+			sc.MaxSteps = s.MaxSteps
+		}
 		if !vrt.RaceMode && !h.NoMon {
 			sc.Monitor = h.monitor
 			sc.StateVec = h.stateVec
